@@ -23,15 +23,18 @@ structure Cfg where
   shortCircuit : Bool
   /-- __VA_ARGS__ keeps the separating commas (F61 repaired) -/
   vaCommas : Bool
+  /-- `defined X` without parentheses is supported (F64 repaired) -/
+  definedBare : Bool
   deriving DecidableEq, Repr
 
 /-- the tree under test -/
 def Cfg.current : Cfg :=
-  ⟨Gen.Pp.elifChecksStateFirst, Gen.Pp.lineIsTruePushes, Gen.Pp.shortCircuit, Gen.Pp.vaArgsKeepCommas⟩
-/-- the tree with the C13 repairs (F17, F61) and C14's F18 -/
-def Cfg.repaired : Cfg := ⟨true, false, true, true⟩
+  ⟨Gen.Pp.elifChecksStateFirst, Gen.Pp.lineIsTruePushes, Gen.Pp.shortCircuit, Gen.Pp.vaArgsKeepCommas,
+   Gen.Pp.definedWithoutParens⟩
+/-- the tree with the C13 repairs (F17, F61, F64) and C14's F18 -/
+def Cfg.repaired : Cfg := ⟨true, false, true, true, true⟩
 /-- the pinned tree -/
-def Cfg.original : Cfg := ⟨false, true, false, false⟩
+def Cfg.original : Cfg := ⟨false, true, false, false, false⟩
 
 /-- `int status`: a set of ppStatus flags -/
 structure Status where
